@@ -26,6 +26,7 @@ VARIANTS = {
     "clang": (["clang", "-O1", "-fpatchable-function-entry=5"], 5),
     "pfe-7,2": (["gcc", "-O1", "-fpatchable-function-entry=7,2", "-fcf-protection=none"], 5),
     "pfe-5,2": (["gcc", "-O1", "-fpatchable-function-entry=5,2", "-fcf-protection=none"], 5),
+    "pfe-cxx": (["g++", "-O1", "-fpatchable-function-entry=5", "-fcf-protection=none"], 5),
     "pfe-nopie": (["gcc", "-O1", "-fpatchable-function-entry=5", "-fno-pie", "-no-pie", "-fcf-protection=none"], 5),
     "fentry": (["gcc", "-O1", "-pg", "-mfentry", "-mnop-mcount", "-fno-pie", "-no-pie", "-fcf-protection=none"], 3),
     "fentry-cet": (["gcc", "-O1", "-pg", "-mfentry", "-mnop-mcount", "-fno-pie", "-no-pie", "-fcf-protection=full"], 3),
@@ -98,24 +99,34 @@ def gen_program(rng, variant, lib=None, libmode=None):
            "extern unsigned long __start___patchable_function_entries[] __attribute__((weak));",
            "extern unsigned long __stop___patchable_function_entries[] __attribute__((weak));",
            "volatile int sink;"]
+    cxx = variant.endswith("cxx")
     for i, n in enumerate(names):
         kind = rng.choice(["tiny", "small", "small", "big", "big"])
         attr = nopatch if rng.random() < 0.2 else ""
         static = "static " if rng.random() < 0.3 else ""
+        ns = cxx and rng.random() < 0.6
+        q = "ns::" + n if ns else n
+        op, cl = ("namespace ns { ", " }") if ns else ("", "")
         if kind == "tiny":
-            src.append("%s%s NI void %s(void) { __asm__ volatile(\"\"); }" % (static, attr, n))
-            call = "%s(); acc += %d;" % (n, i + 1)
+            src.append("%s%s%s NI void %s(void) { __asm__ volatile(\"\"); }%s" % (op, static, attr, n, cl))
+            call = "%s(); acc += %d;" % (q, i + 1)
+            cast = "(fp_t)(void (*)(void))%s" % q
         elif kind == "small":
-            src.append("%s%s NI int %s(int x) { return x * %d + %d; }" % (static, attr, n, i + 3, i))
-            call = "acc += %s(acc & 15);" % n
+            src.append("%s%s%s NI int %s(int x) { return x * %d + %d; }%s" % (op, static, attr, n, i + 3, i, cl))
+            call = "acc += %s(acc & 15);" % q
+            cast = "(fp_t)(int (*)(int))%s" % q
+            if cxx and rng.random() < 0.5:       # an overload: two symbols, one demangled name
+                src.append("%s%s NI int %s(double x) { return (int)(x * %d.5); }%s" % (op, attr, n, i + 1, cl))
+                call += " acc += %s(1.5 + (acc & 3));" % q
         else:
-            src.append("%s%s NI int %s(int x) { int s = %d, i; for (i = 0; i < x + 3; i++) { s = s * 31 + (i ^ x); "
-                       "sink = s; } return s & 0xffff; }" % (static, attr, n, i))
-            call = "acc += %s(acc & 7);" % n
-        funcs.append({"name": n, "kind": kind, "nopatch": bool(attr), "call": call})
+            src.append("%s%s%s NI int %s(int x) { int s = %d, i; for (i = 0; i < x + 3; i++) { s = s * 31 + (i ^ x); "
+                       "sink = s; } return s & 0xffff; }%s" % (op, static, attr, n, i, cl))
+            call = "acc += %s(acc & 7);" % q
+            cast = "(fp_t)(int (*)(int))%s" % q
+        funcs.append({"name": q, "kind": kind, "nopatch": bool(attr), "call": call, "cast": cast})
     src.append("typedef void (*fp_t)(void);")
     src.append("int main(void);")
-    src.append("static fp_t table[] = { %s, (fp_t)0 };" % ", ".join("(fp_t)%s" % f["name"] for f in funcs))
+    src.append("static fp_t table[] = { %s, (fp_t)0 };" % ", ".join(f["cast"] for f in funcs))
     src.append(r"""
 NI void dump_all(void)
 {
@@ -165,10 +176,35 @@ NI void dump_all(void)
     return {"variant": variant, "funcs": funcs, "src": "\n".join(src) + "\n", "lib": lib, "libmode": libmode}
 
 
+def demangle_simple(n):
+    """what uftrace's demangler (simple mode: no parameter list) makes of the Itanium names our generated C++
+    programs contain: plain and nested identifiers, internal linkage (_ZL)"""
+    if not n.startswith("_Z"):
+        return n
+    p = n[2:]
+    if p.startswith("L"):
+        p = p[1:]
+    nested = p.startswith("N")
+    if nested:
+        p = p[1:]
+    parts = []
+    while p and (p[0].isdigit() or p[0] == "L"):
+        if p[0] == "L":
+            p = p[1:]
+            continue
+        m = re.match(r"\d+", p)
+        ln = int(m.group(0))
+        parts.append(p[m.end():m.end() + ln])
+        p = p[m.end() + ln:]
+        if not nested:
+            break
+    return "::".join(parts) if parts else n
+
+
 def build_program(ctx, prog, tag, fill=None):
     d = os.path.join(ctx.scratch, "e2e-" + tag)
     os.makedirs(d, exist_ok=True)
-    src = os.path.join(d, "prog.c")
+    src = os.path.join(d, "prog.cpp" if prog["variant"].endswith("cxx") else "prog.c")
     text = prog["src"]
     if fill:
         text += 'asm(".pushsection .text\\n .skip %d, 0xcc\\n .popsection");\n' % fill
@@ -218,7 +254,8 @@ def build_program(ctx, prog, tag, fill=None):
     for l in out.splitlines():
         k = l.split()
         if len(k) == 4 and k[2] in "tTwW":
-            syms.append((int(k[0], 16), int(k[1], 16), {"t": 116, "T": 84, "w": 119, "W": 119}[k[2]], k[3]))
+            syms.append((int(k[0], 16), int(k[1], 16), {"t": 116, "T": 84, "w": 119, "W": 119}[k[2]],
+                         demangle_simple(k[3])))
     rc, out, err = sh(["readelf", "-lW", exe], check=True)
     base = None
     text = None
@@ -441,9 +478,10 @@ def gen_optsets(rng, prog, n):
             if r < 0.45:
                 pat = rng.choice(present)
             elif ptype == 2:
-                pat = rng.choice([".", "^al", "a$", "^(alpha|beta)$", "e", "^[a-d]", "_", "t.*a", "^main$|^dump"])
+                pat = rng.choice([".", "^al", "a$", "^(alpha|beta)$", "e", "^[a-d]", "_", "t.*a", "^main$|^dump", "^ns::",
+                                  "::", "ns::(alpha|beta|work)"])
             else:
-                pat = rng.choice(["*", "al*", "*a", "?e*", "[a-d]*", "*_*", "main", "dump_*"])
+                pat = rng.choice(["*", "al*", "*a", "?e*", "[a-d]*", "*_*", "main", "dump_*", "ns::*", "*::*", "ns::?e*"])
             if rng.random() < pmod:
                 pat += "@" + rng.choice(mods)
             opts.append((rng.choice("PPU"), pat))
